@@ -40,6 +40,10 @@ func drainOK(payer, amt *Term) (bool, string, *Term) {
 	if !ok {
 		return false, why, nil
 	}
+	// exactly the balance: no arithmetic between the balance read and the coin sent
+	if in := innerAmount(amt); !(in.Op == "call" && strings.HasSuffix(in.Name, ".Coins.AmountOf")) {
+		return false, "the amount sent is " + in.String() + ", not exactly the balance that was read", nil
+	}
 	// the coin is built with the same denomination that was read
 	same := false
 	amt.Walk(func(t *Term) bool {
